@@ -54,6 +54,7 @@ def canonicalise(tree: ast.AST) -> None:
     # a test that is a literal truth value (a flag parameter of a helper that was read through with its argument):
     #   if False: A else: B  ->  B ;   X if True else Y  ->  X ;   not True -> False ;   True and X -> X ;  False or X -> X
     _fold_literal_tests(tree)
+    _de_morgan(tree)
     # a, b = (x, y)  with plain names on both sides that do not overlap   ->   a = x ; b = y
     for node in ast.walk(tree):
         for fld in ("body", "orelse", "finalbody"):
@@ -105,6 +106,47 @@ def canonicalise(tree: ast.AST) -> None:
                         i += len(new_)
                         continue
                 i += 1
+    # X = D.get(K); if X is not None [and R]: BODY      ->   if K in D: X = D[K]; [if R:] BODY
+    # (X read nowhere else in the function; a table whose values are names, never None)
+    for fn_ in ast.walk(tree):
+        if not isinstance(fn_, (ast.FunctionDef, ast.AsyncFunctionDef)):
+            continue
+        for node in ast.walk(fn_):
+            for fld in ("body", "orelse", "finalbody"):
+                seq = getattr(node, fld, None)
+                if not (isinstance(seq, list) and seq and isinstance(seq[0], ast.stmt)):
+                    continue
+                i = 0
+                while i + 1 < len(seq):
+                    a_, b_ = seq[i], seq[i + 1]
+                    if isinstance(a_, ast.Assign) and len(a_.targets) == 1 and isinstance(a_.targets[0], ast.Name) and isinstance(a_.value, ast.Call) \
+                            and isinstance(a_.value.func, ast.Attribute) and a_.value.func.attr == "get" and len(a_.value.args) == 1 and not a_.value.keywords \
+                            and isinstance(a_.value.func.value, (ast.Name, ast.Attribute)) and isinstance(b_, ast.If) and not b_.orelse:
+                        x = a_.targets[0].id
+                        conj = b_.test.values if isinstance(b_.test, ast.BoolOp) and isinstance(b_.test.op, ast.And) else [b_.test]
+                        first = conj[0]
+                        is_nn = isinstance(first, ast.Compare) and len(first.ops) == 1 and isinstance(first.ops[0], ast.IsNot) and isinstance(first.left, ast.Name) and first.left.id == x \
+                            and isinstance(first.comparators[0], ast.Constant) and first.comparators[0].value is None
+                        inside = {id(n) for n in ast.walk(b_)} | {id(n) for n in ast.walk(a_)}
+                        elsewhere = [n for n in ast.walk(fn_) if isinstance(n, ast.Name) and n.id == x and id(n) not in inside]
+                        if is_nn and not elsewhere:
+                            d_, k_ = a_.value.func.value, a_.value.args[0]
+                            test = ast.Compare(left=copy.deepcopy(k_), ops=[ast.In()], comparators=[copy.deepcopy(d_)])
+                            asg = ast.Assign(targets=[ast.Name(id=x, ctx=ast.Store())], value=ast.Subscript(value=copy.deepcopy(d_), slice=copy.deepcopy(k_), ctx=ast.Load()), lineno=a_.lineno)
+                            rest = conj[1:]
+                            inner = list(b_.body)
+                            if rest:
+                                inner = [ast.If(test=rest[0] if len(rest) == 1 else ast.BoolOp(op=ast.And(), values=rest), body=inner, orelse=[])]
+                            new_if = ast.If(test=test, body=[asg] + inner, orelse=[])
+                            ast.copy_location(new_if, b_)
+                            ast.copy_location(asg, a_)
+                            for n in ast.walk(new_if):
+                                if not hasattr(n, "lineno") and isinstance(n, (ast.expr, ast.stmt)):
+                                    ast.copy_location(n, b_)
+                            ast.fix_missing_locations(new_if)
+                            seq[i:i + 2] = [new_if]
+                            continue
+                    i += 1
     # try: X = D[K] (or: return D[K]) except KeyError: A else: B   ->   if K in D: X = D[K]; B else: A
     # (the one subscript is the only thing the try protects; D a name / attribute chain, no `as` name used)
     for node in ast.walk(tree):
@@ -784,6 +826,7 @@ def canonicalise(tree: ast.AST) -> None:
                 node.test = t.operand
                 node.body, node.orelse = node.orelse, node.body
     _normalise_len_compares(tree)
+    _truth_tests_of_lengths(tree)
 
 
 def _read_through_name_aliases(fn: ast.AST) -> None:
@@ -934,6 +977,66 @@ def _normalise_len_compares(tree: ast.AST) -> None:
                 node.ops[0], node.comparators[0] = ast.Eq(), ast.copy_location(ast.Constant(value=0), node.comparators[0])
             elif op is ast.Lt and k_ >= 2:
                 node.ops[0], node.comparators[0] = ast.LtE(), ast.copy_location(ast.Constant(value=k_ - 1), node.comparators[0])
+
+
+def _de_morgan(tree: ast.AST) -> None:
+    """`A' or B'` whose operands are all negative tests (`is not`, `!=`, `not in`, `not X`) is `not (A and B)`,
+    and dually: of the two spellings of one condition the one with a single negation is kept"""
+    neg_ops = {ast.IsNot: ast.Is, ast.NotEq: ast.Eq, ast.NotIn: ast.In}
+
+    def positive(v):
+        if isinstance(v, ast.UnaryOp) and isinstance(v.op, ast.Not):
+            return v.operand
+        if isinstance(v, ast.Compare) and len(v.ops) == 1 and type(v.ops[0]) in neg_ops:
+            return ast.copy_location(ast.Compare(left=v.left, ops=[neg_ops[type(v.ops[0])]()], comparators=v.comparators), v)
+        return None
+
+    class _T(ast.NodeTransformer):
+        def visit_BoolOp(self, n: ast.BoolOp):
+            self.generic_visit(n)
+            pos = [positive(v) for v in n.values]
+            if len(pos) >= 2 and all(p is not None for p in pos):
+                dual = ast.And() if isinstance(n.op, ast.Or) else ast.Or()
+                return ast.copy_location(ast.UnaryOp(op=ast.Not(), operand=ast.copy_location(ast.BoolOp(op=dual, values=pos), n)), n)
+            return n
+
+        def visit_UnaryOp(self, n: ast.UnaryOp):
+            self.generic_visit(n)
+            if isinstance(n.op, ast.Not) and isinstance(n.operand, ast.UnaryOp) and isinstance(n.operand.op, ast.Not) and isinstance(n.operand.operand, (ast.BoolOp, ast.Compare)):
+                return n.operand.operand
+            return n
+
+    _T().visit(tree)
+    ast.fix_missing_locations(tree)
+
+
+def _truth_tests_of_lengths(tree: ast.AST) -> None:
+    """where a truth value is asked for (the test of if / while / a conditional expression / a comprehension
+    filter, through and / or / not), `len(x) > 0` is `x` and `len(x) == 0` is `not x`: the emptiness of a sized
+    value has one spelling.  (No class of the package defines __bool__; NAME-6 watches the one that could matter.)"""
+    def conv(e: ast.AST) -> ast.AST:
+        if isinstance(e, ast.BoolOp):
+            e.values = [conv(v) for v in e.values]
+            return e
+        if isinstance(e, ast.UnaryOp) and isinstance(e.op, ast.Not):
+            e.operand = conv(e.operand)
+            if isinstance(e.operand, ast.UnaryOp) and isinstance(e.operand.op, ast.Not):
+                return e.operand.operand
+            return e
+        if isinstance(e, ast.Compare) and len(e.ops) == 1 and isinstance(e.left, ast.Call) and isinstance(e.left.func, ast.Name) and e.left.func.id == "len" \
+                and len(e.left.args) == 1 and not e.left.keywords and isinstance(e.comparators[0], ast.Constant) and e.comparators[0].value == 0 and not isinstance(e.comparators[0].value, bool):
+            if isinstance(e.ops[0], ast.Gt):
+                return e.left.args[0]
+            if isinstance(e.ops[0], ast.Eq):
+                return ast.copy_location(ast.UnaryOp(op=ast.Not(), operand=e.left.args[0]), e)
+        return e
+
+    for node in ast.walk(tree):
+        if isinstance(node, (ast.If, ast.While, ast.IfExp)):
+            node.test = conv(node.test)
+        elif isinstance(node, ast.comprehension):
+            node.ifs = [conv(c) for c in node.ifs]
+    ast.fix_missing_locations(tree)
 
 
 def _bound_to_list(tree: ast.AST, name: str) -> bool:
